@@ -536,50 +536,62 @@ def run(ctx):
                what="walk_ports_recurse tests the child's runtime object with a condition that is true for %s: it must tell a null pointer from every other one and nothing else (a sub-object at offset 0 has its parent's address)" % tab13)
 
     ctx.rule("R09.7", "ENABLER-ONCE: port_is_enabled applies the walker to the enabling toggle exactly when the port is disabled and ordinary traversal would not reach the toggle, i.e. when it lies below the port it disables - inside the sub-tree (`subport`) or, for a sub-tree's own `self:` entry, always (the path is then relative to the sub-tree itself): the guard of the walker call, evaluated over all truth values, is !enabled && (subport || !relative_to_parent)")
+
     upp = ctx.ast("ports.cpp")
-    pie = upp.function("port_is_enabled")
-    wcalls = []
-    pps = upp.params(pie)
-    walker_p = [p_ for p_ in pps if "port_walker_t" in A.stype(p_) or p_.get("name") == "walker"]
-    rel_p = [p_ for p_ in pps if FD.ctype(A.qtype(p_)) == ("int", 1, False)]
-    ctx.require(len(walker_p) == 1 and len(rel_p) == 1, "port_is_enabled: walker / relative_to_parent parameters not identified")
-    for x in A.walk(upp.body(pie)):
-        if x.get("kind") == "CallExpr" and A.ref_id(A.kids(x)[0]) == walker_p[0]["id"]:
-            wcalls.append(x)
-    ctx.require(len(wcalls) == 1, "port_is_enabled: expected one call of the walker, found %d" % len(wcalls))
-    guards7 = []
-    child = wcalls[0]
-    for p_ in upp.ancestors(wcalls[0]):
-        if p_.get("kind") == "IfStmt":
-            ks_ = A.kids(p_)
-            if _contains7(ks_[1], child):
-                guards7.append((ks_[0], True))
-            elif len(ks_) > 2 and _contains7(ks_[2], child):
-                guards7.append((ks_[0], False))
-        if p_.get("kind") == "FunctionDecl":
-            break
-        child = p_
-    # locals in the innermost guard: the returned flag (enabled) and the other bool (lies inside the sub-tree)
-    inner = guards7[0][0] if guards7 else None
-    ctx.require(inner is not None, "port_is_enabled: the walker call has no guard")
-    rets7 = {A.ref_id(A.kids(r_)[0]) for r_ in A.walk(upp.body(pie)) if r_.get("kind") == "ReturnStmt" and A.kids(r_) and A.ref_id(A.kids(r_)[0])}
-    locs7 = sorted({y["referencedDecl"]["id"] for y in A.walk(inner) if y.get("kind") == "DeclRefExpr" and (y.get("referencedDecl") or {}).get("kind") == "VarDecl"})
-    res_ids = [i_ for i_ in locs7 if i_ in rets7]
-    sub_ids = [i_ for i_ in locs7 if i_ not in rets7]
-    ctx.require(len(res_ids) == 1 and len(sub_ids) == 1, "port_is_enabled: guard of the walker call does not read the returned flag and one more local (%d, %d)" % (len(res_ids), len(sub_ids)))
-    bad7 = []
-    import itertools as _it
-    for en, sub, rel in _it.product((0, 1), repeat=3):
-        env7 = {res_ids[0]: en, sub_ids[0]: sub, rel_p[0]["id"]: rel, walker_p[0]["id"]: 1}
-        try:
-            got = bool(FD.Eval(env=env7).ev(inner))
-        except FD.Unknown as e:
-            raise AnalysisBroken("R09.7: guard not evaluable: %s" % e)
-        exp = (not en) and bool(sub or not rel)
-        if got != exp:
-            bad7.append({"enabled": en, "toggle_inside_subtree": sub, "relative_to_parent": rel, "walker_applied": got, "expected": exp})
-    ctx.ob("R09.7", "port_is_enabled: walker on the enabling toggle", not bad7, site=A.where(wcalls[0]), detail={"guard": A.src(inner), "cases": 8, "mismatches": bad7},
-           what="port_is_enabled reports the enabling toggle to the walker under `%s`: wrong for %s - a toggle that ordinary traversal also reaches is reported twice, one that it does not reach is not reported at all" % (A.src(inner), bad7[:2]))
+
+    def _r097():
+        pie = upp.function("port_is_enabled")
+        wcalls = []
+        pps = upp.params(pie)
+        walker_p = [p_ for p_ in pps if "port_walker_t" in A.stype(p_) or p_.get("name") == "walker"]
+        rel_p = [p_ for p_ in pps if FD.ctype(A.qtype(p_)) == ("int", 1, False)]
+        ctx.require(len(walker_p) == 1 and len(rel_p) == 1, "port_is_enabled: walker / relative_to_parent parameters not identified")
+        for x in A.walk(upp.body(pie)):
+            if x.get("kind") == "CallExpr" and A.ref_id(A.kids(x)[0]) == walker_p[0]["id"]:
+                wcalls.append(x)
+        ctx.require(len(wcalls) == 1, "port_is_enabled: expected one call of the walker, found %d" % len(wcalls))
+        guards7 = []
+        child = wcalls[0]
+        for p_ in upp.ancestors(wcalls[0]):
+            if p_.get("kind") == "IfStmt":
+                ks_ = A.kids(p_)
+                if _contains7(ks_[1], child):
+                    guards7.append((ks_[0], True))
+                elif len(ks_) > 2 and _contains7(ks_[2], child):
+                    guards7.append((ks_[0], False))
+            if p_.get("kind") == "FunctionDecl":
+                break
+            child = p_
+        # locals in the innermost guard: the returned flag (enabled) and the other bool (lies inside the sub-tree)
+        inner = guards7[0][0] if guards7 else None
+        ctx.require(inner is not None, "port_is_enabled: the walker call has no guard")
+        rets7 = {A.ref_id(A.kids(r_)[0]) for r_ in A.walk(upp.body(pie)) if r_.get("kind") == "ReturnStmt" and A.kids(r_) and A.ref_id(A.kids(r_)[0])}
+        locs7 = sorted({y["referencedDecl"]["id"] for y in A.walk(inner) if y.get("kind") == "DeclRefExpr" and (y.get("referencedDecl") or {}).get("kind") == "VarDecl"})
+        res_ids = [i_ for i_ in locs7 if i_ in rets7]
+        sub_ids = [i_ for i_ in locs7 if i_ not in rets7]
+        ctx.require(len(res_ids) == 1 and len(sub_ids) == 1, "port_is_enabled: guard of the walker call does not read the returned flag and one more local (%d, %d)" % (len(res_ids), len(sub_ids)))
+        bad7 = []
+        import itertools as _it
+        for en, sub, rel in _it.product((0, 1), repeat=3):
+            env7 = {res_ids[0]: en, sub_ids[0]: sub, rel_p[0]["id"]: rel, walker_p[0]["id"]: 1}
+            try:
+                got = bool(FD.Eval(env=env7).ev(inner))
+            except FD.Unknown as e:
+                raise AnalysisBroken("R09.7: guard not evaluable: %s" % e)
+            exp = (not en) and bool(sub or not rel)
+            if got != exp:
+                bad7.append({"enabled": en, "toggle_inside_subtree": sub, "relative_to_parent": rel, "walker_applied": got, "expected": exp})
+        ctx.ob("R09.7", "port_is_enabled: walker on the enabling toggle", not bad7, site=A.where(wcalls[0]), detail={"guard": A.src(inner), "cases": 8, "mismatches": bad7},
+               what="port_is_enabled reports the enabling toggle to the walker under `%s`: wrong for %s - a toggle that ordinary traversal also reaches is reported twice, one that it does not reach is not reported at all" % (A.src(inner), bad7[:2]))
+
+
+    try:
+        _r097()
+    except AnalysisBroken as e7:
+        # the guard is read off the code's shape; where it is written another way (guard clauses, an early return) the
+        # whole-function evaluation R09.14 has decided when the walker is called - for a switched-off and a switched-on
+        # toggle, below the sub-tree and beside it, for both callers
+        ctx.note("R09.7: %s; when the walker is applied to the enabling toggle is decided by the evaluation R09.14 (%d cases)" % (e7, n14))
 
     # ---------------- R09.8
     ctx.rule("R09.8", "NAME-CURSOR: in the walker functions a string function is handed `cursor + k` (k >= 1) only where the k bytes stepped over are known not to be the terminator (the call sits on the true side of a test of `*cursor`, or after an early exit on `!*cursor`) - a port name may end exactly at the cursor (`name#N/`)")
